@@ -18,12 +18,13 @@ EXTENDS Integers, Sequences, FiniteSets, TLC, Json
 
 CONSTANTS Mode, MaxLen, MaxTok, Advance, Shard, NShards
 
-Chars == <<"NL", "SP", "x", "-", ":", "Q", ",", "BS">>
-IsWs(c) == c \in {"NL", "SP"}
+Chars == <<"NL", "SP", "x", "-", ":", "Q", ",", "BS", "TAB">>
+IsWs(c) == c \in {"NL", "SP", "TAB"}              \* str.isspace: TAB stands for every whitespace character that is not " "
 
 \* docstring tokens and their expansion into character classes
 DocTokens == <<"NL", "IND", "WSLINE", "word", "dot", "colon", "tick", "rparam", "rtype", "rreturn", "rrtype",
-               "gargs", "greturns", "graises", "gitem", "nparams", "nreturns", "dashes", "nitem", "defaults">>
+               "gargs", "greturns", "graises", "gitem", "nparams", "nreturns", "dashes", "nitem", "defaults",
+               "TAB", "NBSP", "or", "of">>
 W(n) == [i \in 1..n |-> "x"]
 Expand(t) == CASE t = "NL" -> <<"NL">>
                [] t = "IND" -> <<"SP", "SP", "SP", "SP">>
@@ -45,6 +46,8 @@ Expand(t) == CASE t = "NL" -> <<"NL">>
                [] t = "dashes" -> <<"-", "-", "-", "-", "NL">>
                [] t = "nitem" -> <<"x", "SP", ":", "SP", "x", "x", "x">>
                [] t = "defaults" -> W(8) \o <<"SP", "x", "x", "SP", "x">>
+               [] t \in {"TAB", "NBSP"} -> <<"TAB">>
+               [] t \in {"or", "of"} -> <<"SP", "x", "x", "SP">>
 
 RECURSIVE Flat(_)
 Flat(ss) == IF ss = <<>> THEN <<>> ELSE Head(ss) \o Flat(Tail(ss))
